@@ -365,6 +365,10 @@ class Layout:
                 kwargs["Tinput"] = temperatures[0]
                 kwargs["Thot"] = temperatures[1]
                 comp = Klass(**kwargs)
+                # A dimension that no component of the class has (e.g. modArea) is not in the
+                # database: it has to come back unset rather than as the 0 used above.
+                for dimName in Klass.DIMENSION_NAMES:
+                    comp.p[dimName] = None
             else:
                 comp = Klass(name)
 
